@@ -453,3 +453,65 @@ _run_c13_4 = run
 def run(res, facts, tier):
     _run_c13_4(res, facts, tier)
     r5_decision(res, facts)
+
+
+# ----------------------------------------------------------------------------------------------- R6: pattern steps get their verdict from NodeTester
+def r6_pattern_verdicts(res, facts):
+    """NodeTester::testText / testNode are where a node test asks shouldStripSourceNode (C13-R2).  The pattern matcher must therefore take the verdict of a child or
+    attribute step from a NodeTester: a match score written directly in those cases (a short cut on the node type) matches stripped text nodes - xsl:key match="text()"
+    and xsl:number offer every node of the tree to the pattern."""
+    r = res.rule('C13-R6', 'XPath::stepPattern: in the cases of the child and attribute steps the match score comes from a NodeTester call (or from the predicate / index '
+                 'helpers, or is eMatchScoreNone); a score constant assigned there by-passes the strip test of testText / testNode', floor=3)
+    from ..mast import switch_cases
+    sp = [a for a in facts.asts('XPath::stepPattern', must=False) if a.get('body') is not None]
+    if not sp:
+        raise AnalysisBroken('XPath::stepPattern has no body')
+    STEP_CASES = {'eMATCH_ATTRIBUTE', 'eMATCH_ANY_ANCESTOR', 'eMATCH_ANY_ANCESTOR_WITH_PREDICATE', 'eMATCH_IMMEDIATE_ANCESTOR'}
+    n = 0
+    for a in sp:
+        for sw in walk(a['body']):
+            if sw.get('k') != 'Switch':
+                continue
+            groups = switch_cases(sw)
+            if not any(strip_casts(l).get('n') in STEP_CASES for g in groups for l in g['labels'] if l is not None):
+                continue
+            for g in groups:
+                labels = [strip_casts(l).get('n') for l in g['labels'] if l is not None]
+                if not (set(labels) & STEP_CASES):
+                    continue
+                n += 1
+                site = 'stepPattern case %s' % '/'.join(labels)
+                bad = None
+                tester = False
+                for st in g['stmts']:
+                    for x in walk(st):
+                        if x.get('k') == 'Bin' and x['op'] == '=' and pp(strip_casts(x['lhs'])) == 'score':
+                            rhs = x['rhs']
+                            consts = [y for y in walk(rhs) if y.get('k') == 'Ref' and y.get('d') == 'enum' and (y.get('n') or '').startswith('eMatchScore') and y.get('n') != 'eMatchScoreNone']
+                            # constants are fine when the value they compete with comes from a tester call in the same expression (cond ? none : tester(...))
+                            has_call = any((c.get('k') == 'OpCall' and c.get('op') == '()') or (c.get('n') or '') in ('doStepPredicate', 'handleFoundIndex', 'handleFoundIndexPositional')
+                                           or (c.get('k') == 'Ctor' and (c.get('cls') or '').endswith('NodeTester')) for c in calls(rhs))
+                            if has_call:
+                                tester = True
+                            if consts:
+                                bad = (x, consts[0]['n'])
+                        if x.get('k') in ('Ctor',) and (x.get('cls') or '').endswith('NodeTester'):
+                            tester = True
+                if bad is not None:
+                    r.violation(site, 'the score %s is assigned without a NodeTester: the strip test of testText / testNode is by-passed, a stripped text node matches text() / node() in '
+                                'this step' % bad[1], common.file_line(a, bad[0]))
+                elif not tester:
+                    r.violation(site, 'no NodeTester call decides this step', common.file_line(a, g['stmts'][0] if g['stmts'] else sw))
+                else:
+                    r.ok(site, 'verdict from NodeTester')
+    if n < 3:
+        raise AnalysisBroken('stepPattern: %d step cases found (attribute, immediate ancestor, any ancestor expected)' % n)
+    return r
+
+
+_run_c13_5 = run
+
+
+def run(res, facts, tier):
+    _run_c13_5(res, facts, tier)
+    r6_pattern_verdicts(res, facts)
